@@ -409,7 +409,8 @@ RangeSeq(v, end, step, fuel) ==
 
 \* floor/ceil/... on the exact domain
 MathExact(name, v) ==
-  IF IsInt(v) THEN (CASE name \in {"floor", "ceil", "round", "trunc", "nearbyint", "rint"} -> V1(v)
+  IF v.t = "big" THEN VOom            \* the functions go through float64: beyond 2^30 the model does not follow the rounding
+  ELSE IF IsInt(v) THEN (CASE name \in {"floor", "ceil", "round", "trunc", "nearbyint", "rint"} -> V1(v)
                       [] name = "fabs" -> V1(IF IntSign(v) < 0 THEN IntNeg(v) ELSE v)
                       [] OTHER -> VOom)
   ELSE IF v.t = "frac" THEN
